@@ -139,6 +139,10 @@ func VerifH_handle4() {
 
 	l.HandleMsg4(make([]byte, 300), oob, &net.UDPAddr{IP: net.IP(vnd.Bytes("src", 4)), Port: 68})
 
+	// frame condition behind the one-datagram analysis: handling a datagram leaves the
+	// listener as configured, so every datagram of a history is handled from this state
+	vnd.Assert(l.Interface.Index == bound && l.Interface.Name == "" && len(l.handlers) == nh, "C15 handling a datagram leaves the listener's interface binding as configured (no datagram influences where later replies leave)")
+
 	vnd.Assert(len(sent) <= 1, "C01 at most one reply per datagram")
 	answerable := !parseFails && req.OpCode == dhcpv4.OpcodeBootRequest && mtKind == 1 &&
 		(mt == byte(dhcpv4.MessageTypeDiscover) || mt == byte(dhcpv4.MessageTypeRequest))
